@@ -79,30 +79,32 @@ def translate_c_to_qsharp(source_circuit, operation="MyQsharpOperation", save_me
     # Generate Q# strings with the right syntax, order and values for the gate inputs
     body_str = ""
     for gate in source_circuit._gates:
+        # Local name: the source circuit must not be modified by the translation
+        gate_name = gate.name
         if gate.control is not None:
             control_string = '['
             num_controls = len(gate.control)
             for i, c in enumerate(gate.control):
                 control_string += f'qreg[{c}]]' if i == num_controls - 1 else f'qreg[{c}], '
-            if num_controls > 1 and gate.name == 'CNOT':
-                gate.name = 'CX'
+            if num_controls > 1 and gate_name == 'CNOT':
+                gate_name = 'CX'
 
-        if gate.name in {"H", "X", "Y", "Z", "S", "T"}:
-            body_str += f"\t\t{GATE_QDK[gate.name]}(qreg[{gate.target[0]}]);\n"
-        elif gate.name in {"RX", "RY", "RZ", "PHASE"}:
-            body_str += f"\t\t{GATE_QDK[gate.name]}({gate.parameter}, qreg[{gate.target[0]}]);\n"
-        elif gate.name in {"CNOT"}:
-            body_str += f"\t\t{GATE_QDK[gate.name]}(qreg[{gate.control[0]}], qreg[{gate.target[0]}]);\n"
-        elif gate.name in {"CRX", "CRY", "CRZ", "CPHASE"}:
-            body_str += f"\t\tControlled {GATE_QDK[gate.name]}({control_string}, ({gate.parameter}, qreg[{gate.target[0]}]));\n"
-        elif gate.name in {"CH", "CX", "CY", "CZ", "CS", "CT"}:
-            body_str += f"\t\tControlled {GATE_QDK[gate.name]}({control_string}, (qreg[{gate.target[0]}]));\n"
-        elif gate.name in {"SWAP"}:
-            body_str += f"\t\t{GATE_QDK[gate.name]}(qreg[{gate.target[0]}], qreg[{gate.target[1]}]);\n"
-        elif gate.name in {"CSWAP"}:
-            body_str += f"\t\tControlled {GATE_QDK[gate.name]}({control_string}, (qreg[{gate.target[0]}], qreg[{gate.target[1]}]));\n"
-        elif gate.name in {"MEASURE"}:
-            body_str += f"\t\tset c w/= {measurement} <- {GATE_QDK[gate.name]}(qreg[{gate.target[0]}]);\n"
+        if gate_name in {"H", "X", "Y", "Z", "S", "T"}:
+            body_str += f"\t\t{GATE_QDK[gate_name]}(qreg[{gate.target[0]}]);\n"
+        elif gate_name in {"RX", "RY", "RZ", "PHASE"}:
+            body_str += f"\t\t{GATE_QDK[gate_name]}({gate.parameter}, qreg[{gate.target[0]}]);\n"
+        elif gate_name in {"CNOT"}:
+            body_str += f"\t\t{GATE_QDK[gate_name]}(qreg[{gate.control[0]}], qreg[{gate.target[0]}]);\n"
+        elif gate_name in {"CRX", "CRY", "CRZ", "CPHASE"}:
+            body_str += f"\t\tControlled {GATE_QDK[gate_name]}({control_string}, ({gate.parameter}, qreg[{gate.target[0]}]));\n"
+        elif gate_name in {"CH", "CX", "CY", "CZ", "CS", "CT"}:
+            body_str += f"\t\tControlled {GATE_QDK[gate_name]}({control_string}, (qreg[{gate.target[0]}]));\n"
+        elif gate_name in {"SWAP"}:
+            body_str += f"\t\t{GATE_QDK[gate_name]}(qreg[{gate.target[0]}], qreg[{gate.target[1]}]);\n"
+        elif gate_name in {"CSWAP"}:
+            body_str += f"\t\tControlled {GATE_QDK[gate_name]}({control_string}, (qreg[{gate.target[0]}], qreg[{gate.target[1]}]));\n"
+        elif gate_name in {"MEASURE"}:
+            body_str += f"\t\tset c w/= {measurement} <- {GATE_QDK[gate_name]}(qreg[{gate.target[0]}]);\n"
             if save_measurements:
                 measurement += 1
         else:
